@@ -1,6 +1,6 @@
 (* `K` cases: single decisions / kernel calls with extreme arguments, evaluated by the
    extracted model side by side with the crate (no element data is materialised). *)
-From Matreex Require Export Model.Obs Model.Ops Model.Traits Model.Scalar.
+From Matreex Require Export Model.Obs Model.Ops Model.Traits Model.Scalar Model.IterMut.
 
 Definition obs_res {X} (r : res X) (k : X -> obs) : obs :=
   match r with Val x => k x | Panic w => OPanic w | UB w => OUB w end.
@@ -47,4 +47,11 @@ Definition kcase (c : cfg) (name : Z) (a : list Z) : obs :=
   | 11, [ty; opk] => OStr (scalar_forms_text opk)     (* the 18 scalar operator forms of one primitive type *)
   | 12, [ty] => OStr scalar_neg_text                 (* -matrix, -&matrix *)
   | _, _ => OInvalid
+  end.
+
+(* the mutable vector iterators of a matrix of zero-sized elements (alignment al), driven by a script, at pointer level *)
+Definition kcase_itermut_zst (c : cfg) (a : list Z) : obs :=
+  match a with
+  | al :: nrows :: ncols :: order :: axis :: script => mscript_matrix c 0 al al 0 nrows ncols order axis script
+  | _ => OInvalid
   end.
